@@ -322,6 +322,13 @@ func c13BuildSpecials() {
 	} {
 		add("nil-variable-named-like-a-function", e)
 	}
+	// the documented filters on text outside ASCII
+	for _, e := range []c13E{
+		c13Pipe(c13P("su"), c13Call("title")), c13Call("title", c13P("su")), c13Pipe(c13P("su"), c13Call("upper")), c13Pipe(c13P("su"), c13Call("title"), c13Call("hBr")),
+		c13Bin("==", c13Call("title", c13P("su")), c13Str("Élan Vital")),
+	} {
+		add("builtin-filter-on-non-ascii-text", e)
+	}
 	// the strict comparison operators are data inside a quoted string
 	for _, e := range []c13E{
 		c13Str("a===b"), c13Str("x!==y"), c13Bin("==", c13Str("a===b"), s1), c13Bin("+", s1, c13Str("!==")), c13Pipe(c13Str("a===b"), c13Call("upper")), c13Call("hCat", s1, c13Str("===")),
